@@ -1139,8 +1139,8 @@ NOGRAD_THETA = ("fwd_n", "fwd_eval", "fwd_hard", "fwd_ghard", "export!")
 
 
 def gate_forks(hist, allow: bool):
-    """Finding F70: deepcopy of an MPS model raises when the theta_alpha buffers were produced by a forward pass with autograd
-    enabled.  While F70 is not listed such forks are not generated (the call is replaced by summary); generation-side only -
+    """Finding F74: deepcopy of an MPS model raises when the theta_alpha buffers were produced by a forward pass with autograd
+    enabled.  While F74 is not listed such forks are not generated (the call is replaced by summary); generation-side only -
     the verdict (signature MPSLifeTrace!ForkAfterGrad) is TLC's."""
     if hist is None or allow:
         return hist, 0
@@ -1374,11 +1374,11 @@ def run_check(pid: str, tier: str, seed: int, replay: Optional[str], plan: Dict[
     n_gated_forks = 0
     for sc in scs:
         if sc.get("hist") is not None:
-            sc["hist"], k_ = gate_forks(sc["hist"], "F70" in R.known_open)
+            sc["hist"], k_ = gate_forks(sc["hist"], "F74" in R.known_open)
             n_gated_forks += k_
     if n_gated_forks:
         R.extra.setdefault("not_replayed_unlisted_findings", {})["fork after a forward pass with autograd"] = {
-            "needs_open_finding": "F70", "fork_calls_replaced_by_summary": n_gated_forks}
+            "needs_open_finding": "F74", "fork_calls_replaced_by_summary": n_gated_forks}
     traces = run_scenarios(scs, procs=procs)
     for sc, tr in zip(scs, traces):
         sc["_nt"] = _nontrivial(tr) and (pid != "C02" or tr["y_varies"])
